@@ -213,6 +213,40 @@ def indexed(inp):
     R.cover("indexed:" + cf)
 
 
+def gen_after_fit(tier, seed):
+    for cf in ("chi2", "chi2_covariance", "chi2_fast", "nll-gaussian", "nll-poisson", "gauss_approximation", "gauss_approximation_covariance_fast", "gauss_approximation_pointwise"):
+        for mix in (["y_abs"], ["y_abs_cor", "y_rel_data"], ["y_rel_model"]):
+            for cons in ("none", "both"):
+                yield {"cost": cf, "mix": mix, "constraints": cons}
+
+
+@R.oracle("cost_reported_after_do_fit_is_documented_formula", gen_after_fit, obligation="pointwise_version")
+def after_fit(inp):
+    """do_fit may switch to an optimised (pointwise) variant of the cost function: what it minimises and reports must still be the documented cost"""
+    cf = inp["cost"]
+    d = np.array([2.0, 3.0, 4.0, 6.0]) if ("poisson" in cf or "gauss_approx" in cf) else Y
+    fit = IndexedFit(d, idx_model, cost_function=cf)
+    for s in inp["mix"]:
+        axis, ref, kind, kw = SOURCES[s]
+        (fit.add_error if kind == "simple" else fit.add_matrix_error)(name=s, reference=ref, **kw)
+    add_cons(fit, CONS[inp["constraints"]])
+    fit.do_fit()
+    pt = tuple(float(v) for v in fit.parameter_values)
+    m = idx_model(*pt)
+    V = sum((source_cov(s, d, m) for s in inp["mix"]), np.zeros((4, 4)))
+    exp = generic_formula(cf, d, m, V, constraint_cost(CONS[inp["constraints"]], pt))
+    got = float(fit.cost_function_value)
+    if not math.isclose(got, exp, rel_tol=1e-6, abs_tol=1e-8):
+        return {"got": got, "expected": exp, "witness_class": f"after-fit:{cf}:" + ("diagonal" if inp["mix"] in (["y_abs"], ["y_rel_model"]) else "correlated")}
+    # and it is a minimum of that documented cost: no nearby point is lower
+    for dp in ((1e-3, 0), (-1e-3, 0), (0, 1e-3), (0, -1e-3)):
+        q = (pt[0] + dp[0], pt[1] + dp[1])
+        mq = idx_model(*q)
+        Vq = sum((source_cov(s, d, mq) for s in inp["mix"]), np.zeros((4, 4)))
+        if generic_formula(cf, d, mq, Vq, constraint_cost(CONS[inp["constraints"]], q)) < exp - 1e-5:
+            return {"got": "a point 1e-3 away has a lower documented cost", "expected": "minimum of the documented cost", "witness_class": f"after-fit:{cf}:not-a-minimum"}
+
+
 def gen_hist(tier, seed):
     for cf in ("nll-poisson", "nllr-poisson", "chi2", "gauss_approximation", "gauss_approximation_pointwise", "nll-gaussian"):
         for mix in ([], ["y_abs"], ["y_rel_model"], ["y_abs_cor"]):
